@@ -28,10 +28,18 @@ class Doc:
         self.ksel = [z3.BitVec(f'{tag}_k{i}', 8) for i in range(nmax)]
         st.pc += [z3.ULT(k, len(keys)) for k in self.ksel]
         self.vals = [z3.BitVec(f'{tag}_v{i}', 32) for i in range(nmax)]
+        # how the format hands each key over: 0 transient (&str copied from a scratch buffer: escaped JSON keys, readers),
+        # 1 borrowed from the input (plain keys of from_str / from_slice), 2 owned String
+        self.kmode = [z3.BitVec(f'{tag}_m{i}', 2) for i in range(nmax)]
+        st.pc += [z3.ULT(k, 3) for k in self.kmode]
 
     def concrete(self, m):
         n = m.eval(self.n, True).as_long()
         return [(self.keys[m.eval(self.ksel[i], True).as_long()], m.eval(self.vals[i], True).as_signed_long()) for i in range(n)]
+
+    def modes(self, m):
+        n = m.eval(self.n, True).as_long()
+        return [m.eval(self.kmode[i], True).as_long() for i in range(n)]
 
 
 def harness_models(doc, fields):
@@ -59,7 +67,7 @@ def harness_models(doc, fields):
                 continue
             for s3, ki in it.fork_on(s2, [doc.ksel[pos] == i for i in range(len(doc.keys))]):
                 k = doc.keys[ki]
-                yield from chain_ok(it, it.call_trait(ctx.fr, S, 'serde::de::DeserializeSeed', 'deserialize', [P('KeyDe')], [seed, Agg('KeyDe', (k,))], s3),
+                yield from chain_ok(it, it.call_trait(ctx.fr, S, 'serde::de::DeserializeSeed', 'deserialize', [P('KeyDe')], [seed, Agg('KeyDe', (k, pos))], s3),
                                     lambda s, v: iter([(s, it.ok(it.some(v)))]))
 
     def T_docmap_next_value_seed(it, ctx, args, st):
@@ -71,7 +79,11 @@ def harness_models(doc, fields):
 
     def T_keyde_identifier(it, ctx, args, st):
         de, visitor = args
-        yield from it.call_trait(ctx.fr, ctx.gargs[0], 'serde::de::Visitor', 'visit_str', [P('DeError')], [visitor, st.ref(bstr(de.fields[0]))], st)
+        pos = de.fields[1]
+        for s2, mode in it.fork_on(st, [doc.kmode[pos] == i for i in range(3)]):
+            meth = ('visit_str', 'visit_borrowed_str', 'visit_string')[mode]
+            arg = bstr(de.fields[0]) if mode == 2 else s2.ref(bstr(de.fields[0]))
+            yield from it.call_trait(ctx.fr, ctx.gargs[0], 'serde::de::Visitor', meth, [P('DeError')], [visitor, arg], s2)
 
     def T_valde_i32(it, ctx, args, st):
         de, visitor = args
@@ -174,7 +186,7 @@ MODELS = [
 def run(rep, tier):
     prog = program(['conjure_serde'])
     NMAX = 2 if tier == 'quick' else 3
-    rep.bounds['documents'] = f'object documents of <= {NMAX} members, keys from the declared fields plus one undeclared key in every position and order; declared field sets: none, one, two; JSON and Smile server and client entry points'
+    rep.bounds['documents'] = f'object documents of <= {NMAX} members, keys from the declared fields plus one undeclared key in every position and order, each key handed over as a transient, borrowed or owned string (symbolic per member); declared field sets: none, one, two; JSON and Smile server and client entry points'
     # nesting depth: every entry point of de::Override hands the same wrapper on (one inductive step each), so the behaviour decided
     # below for one object level is the behaviour at every depth through optionals, sequences, maps, newtypes and enum variants
     from checks import c01w
@@ -278,7 +290,11 @@ def run(rep, tier):
 
 def report(rep, fmt, side, fields, doc, m, what):
     members = doc.concrete(m)
-    text = '{' + ','.join(f'"{k}":{v}' if k != 'u' else f'"{k}":{{"x":{v}}}' for k, v in members) + '}'
+    # keys the model delivered as transient / owned strings are spelled with an escape (serde_json copies such keys into its scratch
+    # buffer); borrowed ones plainly
+    modes = doc.modes(m)
+    sp = lambda k, md: k if md == 1 else '\\u%04x' % ord(k[0]) + k[1:]
+    text = '{' + ','.join(f'"{sp(k, md)}":{v}' if k != 'u' else f'"{sp(k, md)}":{{"x":{v}}}' for (k, v), md in zip(members, modes)) + '}'
     # duplicate keys: serde-derive rejects duplicates of declared fields itself; skip such documents
     ks = [k for k, _ in members if k != 'u']
     if len(ks) != len(set(ks)):
